@@ -496,7 +496,7 @@ handle_arglist(spif_int32_t n, spif_charptr_t val_ptr, unsigned char hasequal,
             /* The first word is the value itself, which may be attached to the option (-eVALUE). */
             tmp[k] = (spif_charptr_t) STRDUP((k ? SPIF_CHARPTR(argv[k + i]) : val_ptr));
             D_OPTIONS(("tmp[%d] == %s\n", k, tmp[k]));
-            if (SPIFOPT_FLAGS_IS_SET(SPIFOPT_SETTING_REMOVE_ARGS)) {
+            if (!SPIFOPT_FLAGS_IS_SET(SPIFOPT_SETTING_PREPARSE) && SPIFOPT_FLAGS_IS_SET(SPIFOPT_SETTING_REMOVE_ARGS)) {
                 argv[k + i] = NULL;
             }
         }
